@@ -8,6 +8,7 @@ import (
 	"log"
 	"os"
 	"strconv"
+	"sync"
 
 	"github.com/lidofinance/dc4bc/storage"
 
@@ -22,6 +23,8 @@ type FileStorage struct {
 
 	dataFile *os.File
 
+	// the ignore lists are written by a state reset (local API) while the poller reads them
+	ignoreMu         sync.RWMutex
 	idIgnoreList     map[string]struct{}
 	offsetIgnoreList map[uint64]struct{}
 }
@@ -143,8 +146,10 @@ func (fs *FileStorage) GetMessages(offset uint64) ([]storage.Message, error) {
 		// resumes reading at offset+1 of the last entry it was given
 		data.Offset = position - 1
 
+		fs.ignoreMu.RLock()
 		_, idOk := fs.idIgnoreList[data.ID]
 		_, offsetOk := fs.offsetIgnoreList[data.Offset]
+		fs.ignoreMu.RUnlock()
 		if !idOk && !offsetOk {
 			msgs = append(msgs, data)
 		}
@@ -160,6 +165,8 @@ func (fs *FileStorage) Close() error {
 }
 
 func (fs *FileStorage) IgnoreMessages(messages []string, useOffset bool) error {
+	fs.ignoreMu.Lock()
+	defer fs.ignoreMu.Unlock()
 	for _, msg := range messages {
 		if useOffset {
 			offset, err := strconv.ParseUint(msg, 10, 64)
@@ -178,6 +185,8 @@ func (fs *FileStorage) IgnoreMessages(messages []string, useOffset bool) error {
 }
 
 func (fs *FileStorage) UnignoreMessages() {
+	fs.ignoreMu.Lock()
+	defer fs.ignoreMu.Unlock()
 	fs.idIgnoreList = map[string]struct{}{}
 	fs.offsetIgnoreList = map[uint64]struct{}{}
 }
